@@ -7,6 +7,13 @@ correspondence of harness/c18.py).  All statements quantify over **every** data 
 (nested dict/list/tuple, arbitrary depth, arbitrary row type `α`), every batch size `b > 0`
 and every event count; proofs are structural inductions over the tree.
 
+Variants.  Theorems without suffix describe the generator *before* fix 15c726c (`gen`/`split`: `MAX_ITER`
+branch for empty dict/list, `zip()` of nothing for an empty tuple) -- they are kept because they state exactly
+what that code lost.  Theorems with suffix `F` describe the code now in /repo (`genF`/`splitF`,
+`LazyCall._split_extra`): same conclusions with no guard on empty containers, empty `extra`, or the number
+of batches.  `split_sizes`, `mask_leaf`, `mask_raises`, `load_multi_file`, `load_save_roundtrip`,
+`saveTxt_layout` and the `index_*` theorems do not involve the generator (variant-independent).
+
 Vocabulary: `win b j rows = rows[j*b : min(j*b+b, n)]`, `mapLeaves f d` applies `f` to every leaf,
 `slen b d` is the number of batches the generator yields (`MAX_ITER` for an empty dict/list, `0` for an
 empty tuple, `ceil(n/b)` for a leaf, the minimum over the children of a container),
@@ -313,6 +320,109 @@ theorem lazy_eq_eager (f : D α → D β) (x : D α) (fx ex : List (String × D 
 /-- the default `extra = {}` limits the unfixed iteration to `MAX_ITER` batches -/
 theorem lazy_empty_extra (b : Nat) : slen b (D.node .dict [] : D β) = MAX_ITER := by
   simp [slen]
+
+/-! ## LazyCall after the fix (`_split_extra`), model `lazyIterF` / `lazyIterNestedF`
+
+No guard on empty containers, on an empty `extra`, or on the number of batches. -/
+
+/-- fixed code: the batches yielded by `LazyCall.__iter__` are exactly the `ceil(n/b)` row windows of the eager
+    value `eval()`, for every `x` holding an array, every `extra` dict (empty, with empty containers, or arrays) -/
+theorem lazyIterF_batches (f : D α → D β) (x : D α) (fx ex : List (String × D β)) (b n : Nat)
+    (hfx : f x = .node .dict fx)
+    (hf : ∀ j, f (mapLeaves (win b j) x) = mapLeaves (win b j) (f x))
+    (hux : uniform n x = true) (hleaf : noArray x = false)
+    (hue : uniform n (D.node .dict ex) = true) :
+    lazyIterF f x (.node .dict ex) b =
+      some (tab (nChunks b n) fun j => mapLeaves (win b j) (D.node .dict (dictUpdate fx ex))) := by
+  unfold lazyIterF
+  rw [splitF_eq b n x hux]
+  simp only [hleaf, Bool.false_eq_true, if_false]
+  exact lazyIterOverF_tab f x fx ex b n hfx hf hue
+
+/-- ★ fixed code, lazy = eager: for every `x` (any nesting, empty containers allowed) whose leaves have `n > 0`
+    rows, every batch size `b > 0`, every `extra` dict whose leaves have `n` rows (in particular the default
+    empty `extra`), and every event-wise `f` returning a dict: merging the batches of `LazyCall.__iter__` gives
+    `LazyCall.eval()`, whenever that eager value is a well-formed dict with `n` rows per leaf. -/
+theorem lazy_eq_eagerF (f : D α → D β) (x : D α) (fx ex : List (String × D β)) (b n : Nat)
+    (hfx : f x = .node .dict fx)
+    (hf : ∀ j, f (mapLeaves (win b j) x) = mapLeaves (win b j) (f x))
+    (hb : 0 < b) (hn : 0 < n)
+    (hux : uniform n x = true) (hleaf : noArray x = false)
+    (hue : uniform n (D.node .dict ex) = true)
+    (hwf : WF (D.node .dict (dictUpdate fx ex))) (hu : uniform n (D.node .dict (dictUpdate fx ex)) = true) :
+    (lazyIterF f x (.node .dict ex) b).bind merge = lazyEval f x (.node .dict ex) ∧
+    lazyEval f x (.node .dict ex) = some (.node .dict (dictUpdate fx ex)) := by
+  refine ⟨?_, lazyEval_dict f x fx ex hfx⟩
+  rw [lazyEval_dict f x fx ex hfx, lazyIterF_batches f x fx ex b n hfx hf hux hleaf hue]
+  exact merge_windows b n _ hwf hu hb hn
+
+/-- the hypotheses are satisfiable with the default empty `extra` -/
+example : uniform 3 (D.node .dict [] : D Nat) = true ∧
+    WF (D.node .dict (dictUpdate [("y", (D.leaf [2, 4, 6] : D Nat))] [])) ∧
+    uniform 3 (D.node .dict (dictUpdate [("y", (D.leaf [2, 4, 6] : D Nat))] [])) = true := by
+  refine ⟨by decide, ?_, by decide⟩
+  simp [dictUpdate, WF, WFCh]
+
+/-- ★ fixed code, nested `LazyCall(g, LazyCall(f, x))` (second branch of `__iter__`): merged batches = `eval()`
+    of the nested object = `{**g({**f(x), **e1}), **e2}`, for event-wise `f`, `g`; no guard on the number of batches. -/
+theorem lazy_nested_eq_eagerF {γ : Type} (g : D β → D γ) (f : D α → D β) (x : D α)
+    (fx e1 : List (String × D β)) (gx e2 : List (String × D γ)) (b n : Nat)
+    (hfx : f x = .node .dict fx)
+    (hf : ∀ j, f (mapLeaves (win b j) x) = mapLeaves (win b j) (f x))
+    (hgx : g (.node .dict (dictUpdate fx e1)) = .node .dict gx)
+    (hg : ∀ j, g (mapLeaves (win b j) (D.node .dict (dictUpdate fx e1))) =
+      mapLeaves (win b j) (g (.node .dict (dictUpdate fx e1))))
+    (hb : 0 < b) (hn : 0 < n)
+    (hux : uniform n x = true) (hleaf : noArray x = false)
+    (hue1 : uniform n (D.node .dict e1) = true) (hue2 : uniform n (D.node .dict e2) = true)
+    (hwf : WF (D.node .dict (dictUpdate gx e2))) (hu : uniform n (D.node .dict (dictUpdate gx e2)) = true) :
+    (lazyIterNestedF g f x (.node .dict e1) (.node .dict e2) b).bind merge =
+      lazyEvalNested g f x (.node .dict e1) (.node .dict e2) ∧
+    lazyEvalNested g f x (.node .dict e1) (.node .dict e2) = some (.node .dict (dictUpdate gx e2)) := by
+  have hev : lazyEvalNested g f x (.node .dict e1) (.node .dict e2) = some (.node .dict (dictUpdate gx e2)) := by
+    unfold lazyEvalNested
+    rw [lazyEval_dict f x fx e1 hfx]
+    simp only [Option.bind_some]
+    exact lazyEval_dict g _ gx e2 hgx
+  refine ⟨?_, hev⟩
+  rw [hev]
+  unfold lazyIterNestedF
+  rw [lazyIterF_batches f x fx e1 b n hfx hf hux hleaf hue1]
+  simp only [Option.bind_some]
+  rw [lazyIterOverF_tab g _ gx e2 b n hgx hg hue2]
+  exact merge_windows b n _ hwf hu hb hn
+
+/-! ## remaining fixed-variant counterparts -/
+
+/-- fixed code: number of batches and content of batch `j` -/
+theorem splitF_get (b n : Nat) (d : D α) (hu : uniform n d = true) (hleaf : noArray d = false) (j : Nat)
+    (hj : j < nChunks b n) :
+    (splitF b d).length = nChunks b n ∧ (splitF b d)[j]? = some (mapLeaves (win b j) d) := by
+  rw [splitF_eq b n d hu]
+  simp only [hleaf, Bool.false_eq_true, if_false]
+  exact ⟨tab_length _ _, tab_getElem? _ _ j hj⟩
+
+/-- fixed code: scalar broadcast rule of `batch_call`, no guard on empty containers -/
+theorem batch_call_scalarF (c : β) (b n : Nat) (d : D α) (hu : uniform n d = true) (hleaf : noArray d = false)
+    (hb : 0 < b) (hn : 0 < n) :
+    batchCallScalarV true c b d = some (.leaf (List.replicate n c)) := by
+  simp only [batchCallScalarV, splitV, if_true]
+  rw [splitF_eq b n d hu]
+  simp only [hleaf, Bool.false_eq_true, if_false]
+  have hshape : ∀ j, (firstLen (mapLeaves (win b j) d)).map (fun k => D.leaf (List.replicate k c)) =
+      some (mapLeaves (win b j) (D.leaf (List.replicate n c))) := by
+    intro j
+    rw [firstLen_uniform _ _ (split_sizes b n d hu j) (by rw [noArray_mapLeaves]; exact hleaf)]
+    simp [mapLeaves, win_replicate]
+  have hm : (tab (nChunks b n) fun j => mapLeaves (win b j) d).mapM
+        (fun p => (firstLen p).map fun k => D.leaf (List.replicate k c)) =
+      some (tab (nChunks b n) fun j => mapLeaves (win b j) (D.leaf (List.replicate n c))) := by
+    rw [← mapM_id_tab]
+    simp only [tab, List.mapM_map, Function.comp_def, hshape]
+    rfl
+  rw [hm]
+  simp only []
+  exact merge_windows b n _ (by simp [WF]) (by simp [uniform]) hb hn
 
 /-! ## data_index -/
 
